@@ -196,7 +196,9 @@ def main():
 
     # ---- extra engines registered for this property (Kani etc.)
     bounded = []
-    for extra in pc.get('extra', []):
+    unit_extras = load_json(os.path.join(VERIF, 'vp', 'unit_extras.json'), {})
+    extras = [e for u in units for e in unit_extras.get(u, [])] + list(pc.get('extra', []))
+    for extra in extras:
         if extra.get('tier', 'quick') == 'thorough' and tier != 'thorough':
             continue
         import importlib
@@ -204,7 +206,7 @@ def main():
         er = mod.run(prop, tier, extra)
         bounded.append(er['summary'])
         for hrec in er['summary'].get('harnesses', []):
-            oname = 'kani/%s [BOUNDED: %s]' % (hrec['harness'], hrec.get('bound', ''))
+            oname = '%s/%s [BOUNDED: %s]' % ('native' if extra['module'] == 'native_engine' else 'kani', hrec['harness'], hrec.get('bound', ''))
             obligations.append(oname)
             if hrec['result'] == 'SUCCESSFUL':
                 discharged.append(oname)
